@@ -56,6 +56,8 @@ type gsxInput struct {
 	namekind int
 	cg       *ast.CommentGroup
 	file     *ast.File
+	efile    *ast.File // the file announced through EnterFile before a visit
+	prefix   string
 }
 
 func gsxWalkerKind(c *linter.Checker) string {
@@ -76,7 +78,7 @@ func gsxMakeInput(c *linter.Checker) *gsxInput { return gsxMakeInputNamed(c, "")
 
 // gsxMakeInputNamed: a second, independent input gets its own name prefix.
 func gsxMakeInputNamed(c *linter.Checker, prefix string) *gsxInput {
-	in := &gsxInput{}
+	in := &gsxInput{prefix: prefix}
 	k := gsxrt.Bound("K", 3)
 	if prefix != "" {
 		gsxrt.Lazy(prefix+"fn", 1, &in.fn)
@@ -125,6 +127,17 @@ func gsxMakeInputNamed(c *linter.Checker, prefix string) *gsxInput {
 // gsxApply performs one visit of c's visitor on the input.
 func gsxApply(c *linter.Checker, in *gsxInput) {
 	fw := gsxrt.Field(c, "fileWalker")
+	// the walkers' protocol: EnterFile(file) comes first and may veto the file
+	if v := gsxrt.Field(fw, "visitor"); v != nil {
+		if ef, ok := v.(interface{ EnterFile(*ast.File) bool }); ok {
+			if in.efile == nil {
+				gsxrt.Lazy(in.prefix+"efile", 2, &in.efile)
+			}
+			if !ef.EnterFile(in.efile) {
+				return
+			}
+		}
+	}
 	switch gsxrt.TypeName(fw) {
 	case gsxWalkPkg + "exprWalker":
 		v := gsxrt.Field(fw, "visitor").(astwalk.ExprVisitor)
